@@ -67,10 +67,24 @@ pub fn make_run(seed: u64, focus: Focus) -> (ops::Init, gensrc::GenSource, Strin
         }
     };
     let shape = match &init {
-        ops::Init::Bytes(_) => format!("{}/{}/{:?}", cfg.shape.name(), cfg.density, cfg.opt),
+        ops::Init::Bytes(_) => format!(
+            "{}{}/{}/{:?}",
+            cfg.shape.name(),
+            if cfg.header_ptr { "+header-pointer" } else { "" },
+            cfg.density,
+            cfg.opt
+        ),
         ops::Init::Empty { .. } => "synth-empty".into(),
         ops::Init::Query { .. } => "synth-query".into(),
     };
+    let mut swarm = swarm;
+    if cfg.header_ptr && matches!(init, ops::Init::Bytes(_)) {
+        // names of this packet live in the header: a header setter would rewrite them, which is
+        // not what any claimed property is about
+        for k in 0..5 {
+            swarm.w[k] = 0;
+        }
+    }
     let src = gensrc::GenSource::new(rng.next_u64(), swarm);
     (init, src, shape)
 }
